@@ -60,6 +60,14 @@ type PtrV struct {
 	Idx  *Term // element index for 2-D keys
 	Key  string
 	Elem types.Type // pointee type
+	// Alts: the pointer is Alts[i].P under Alts[i].Cond (first match wins), this pointer itself otherwise. Used where
+	// paths merge with pointers of different shapes (an element of a slice on one path, a new object on the other).
+	Alts []PtrAlt
+}
+
+type PtrAlt struct {
+	Cond *Term
+	P    *PtrV
 }
 
 type FuncV struct {
